@@ -131,6 +131,23 @@ Theorem C20_memory_any_size : forall n ps, Forall post_ok ps ->
 Proof. exact memory_any_size. Qed.
 Print Assumptions C20_memory_any_size.
 
+(* ... and however it GROWS while one manager is posting: the manager posts ps1, other designs' encodings enlarge
+   the store (any well-formed extension, of any size: the store may pass any size threshold between two posts
+   of that manager), the manager posts ps2.  Two such runs - from two arbitrary well-formed stores, with two
+   arbitrary growths (take m0' = [] and ex' = []: the probe alone, first thing in a process) - accept the same posts
+   and restrict the user's variables to the same assignments, those satisfying every accepted constraint *)
+Theorem C20_memory_span_independent : forall (m0 m0' : memory) ps1 ps2,
+  mem_wf m0 -> mem_wf m0' -> Forall post_ok ps1 -> Forall post_ok ps2 ->
+  exists m1 s1 m1' s1' sts1,
+    run_posts m0 empty_mgr ps1 = Some (m1, s1, sts1) /\ run_posts m0' empty_mgr ps1 = Some (m1', s1', sts1) /\
+    forall ex ex' : memory, mem_wf (m1 ++ ex) -> mem_wf (m1' ++ ex') ->
+      exists m2 s2 m2' s2' sts2,
+        run_posts (m1 ++ ex) s1 ps2 = Some (m2, s2, sts2) /\ run_posts (m1' ++ ex') s1' ps2 = Some (m2', s2', sts2) /\
+        (forall a, ext a (clauses s2) <-> ext a (clauses s2')) /\
+        (forall a, ext a (clauses s2) <-> accepted_hold a ps1 sts1 /\ accepted_hold a ps2 sts2).
+Proof. exact post_span_store_independent. Qed.
+Print Assumptions C20_memory_span_independent.
+
 (* ---- histories ---- *)
 (* the first writer's tolerances are never replaced *)
 Theorem C20_first_writer_wins : forall (sqrt_o : Qc -> Qc) (li lo : Type) (b : li -> lo) (pr : li -> Qc * Qc * Qc)
